@@ -16,8 +16,12 @@ SIM_TRUSTED = [
 
 def run_jobs(ctx, jobs, driver='Sim.lean', script='run_sim.py'):
     """jobs: list of (name, [profile, n]) or (name, ['replay', file]); returns per-job result dicts"""
+    deep = int(os.environ.get('VERIF_DEPTH', '4'))
+
     def one(j):
         name, args = j
+        if not ctx.quick() and len(args) == 2 and isinstance(args[1], int):
+            args = [args[0], args[1] * deep]          # thorough tier: deeper again than the plug-in's own tenfold
         d = ctx.sub(name)
         g = ctx.harness(script, [d, ctx.seed * 1000 + jobs.index(j)] + args, timeout=1500)
         if g.returncode != 0:
